@@ -443,8 +443,8 @@ class Log(registering.StoriedRegistrar):
             self.paths = []  # remove stale rotate paths
 
         self.close()  #innocuous to call close() on unopened file
-        if os.path.exists(self.path):
-            self.first = False
+        # header exactly for a file that is new: True again when the file is absent
+        self.first = not os.path.exists(self.path)
 
         try:
             self.file = ocfn(self.path, 'a+')  # append pick up where left off
